@@ -69,6 +69,14 @@ type AnchoredProp interface {
 	AnchorFiles() []string
 }
 
+// DeathProp is implemented by properties for which a reproduced death of the
+// worker process (panic, fatal error) while running a case is a violation of
+// THAT property (C09: nothing a plugin returns may crash the engine). For every
+// other property a dead worker only means the case could not be judged.
+type DeathProp interface {
+	DeathIsViolation() bool
+}
+
 // WedgeProp is implemented by properties for which a confirmed hang (case
 // exceeds its watchdog twice, the second time alone in a fresh process) is a
 // violation rather than inconclusive.
@@ -366,9 +374,15 @@ func Drive(p Prop, tier string, opt Options) int {
 	if wp, ok := p.(WedgeProp); ok {
 		hangIsViolation = wp.HangIsViolation()
 	}
+	deathIsViolation := false
+	if dp, ok := p.(DeathProp); ok {
+		deathIsViolation = dp.DeathIsViolation()
+	}
 	for _, i := range a.crashed {
 		results, _, died, hung, tailS := runChild(0, []int{i}, true)
-		if died && !hung {
+		if died && !hung && !deathIsViolation {
+			a.inconclusive = append(a.inconclusive, fmt.Sprintf("case %d: worker process died (reproduced alone): %s — a crash of the engine is judged by C09, this case is not judged here", i, crashSite(tailS)))
+		} else if died && !hung {
 			a.evals++
 			a.violations = append(a.violations, Violation{
 				Property: p.ID(), Class: "process-death",
